@@ -267,7 +267,7 @@ theorem C16_group_by_partition (H : List HashTok → Nat) (val : List Value) (at
     (g : List (Key × List Value)) (h : groupBy H val attr = .ok g) :
     (∀ q, (Map.get q g).getD [] = val.filter (inGroup H attr q)) ∧
     NoDupKeys g ∧ (∀ e ∈ g, e.2 ≠ []) ∧
-    (∀ v ∈ val, ∃ x, getFromPath H v attr = some x ∧ (x = .none ∨ x.asKey.isSome = true)) := by
+    (∀ v ∈ val, ∃ x, getFromPath H v attr = some x ∧ (x = .none ∨ x.asKeyK.isSome = true)) := by
   unfold groupBy at h
   cases hv : val.isEmpty with
   | true =>
@@ -319,9 +319,9 @@ theorem C16_keys_values_pairs (m : List (Key × Value)) (nd : NoDupKeys m) :
     keys m = (mapEntries m).map (fun e => e.1.asValue) ∧ values m = (mapEntries m).map (·.2) := by
   refine ⟨?_, ?_, ?_, ?_, sortBy_perm _ m, sortEntries_keySorted m nd, rfl, rfl⟩
   · simp only [pairs, keys, values]; rw [zipWith_map_map]
-  · simp [keys, mapEntries, sortEntries, length_sortBy]
-  · simp [values, mapEntries, sortEntries, length_sortBy]
-  · simp [pairs, mapEntries, sortEntries, length_sortBy]
+  · simp [keys, mapEntries, sortEntriesK, length_sortBy]
+  · simp [values, mapEntries, sortEntriesK, length_sortBy]
+  · simp [pairs, mapEntries, sortEntriesK, length_sortBy]
 
 /-! ## split / join -/
 
